@@ -338,21 +338,69 @@ def gen_main_program(rng: random.Random, idx: int, max_depth: int = 6) -> Dict[s
     """a valid program: imported library + main file with integer / boolean / string constants,
     lone references, a message whose option and capacities refer to constants"""
     tag = f"{idx}"
+    alias = rng.choice(["lib", "base", "k_1"])
+    # Name collisions across files (they must not matter: a reference is resolved in the file it is
+    # written in).  `collide`: the importer declares constants with the SAME NAMES as the imported
+    # file (other values), after the imported file has used its own.  `nested`: a third file is
+    # imported by the library under the SAME ALIAS the main file uses for the library, both files
+    # spell references `alias.NAME`, for different constants.
+    collide = rng.random() < 0.6
+    nested = rng.random() < 0.4
+    files: List[Dict[str, Any]] = []
     lib_env: Dict[str, int] = {}
-    lib_stmts = []
+    lib_stmts: List[Dict[str, Any]] = []
+    if nested:
+        deep_env: Dict[str, int] = {}
+        deep_stmts = []
+        for j in range(rng.randrange(1, 3)):
+            e = gen_expr(rng, rng.randrange(0, 2), deep_env)
+            deep_stmts.append(_calc_const(rng, f"L{j}", e))
+            deep_env[f"L{j}"] = py_denote(e, deep_env)
+        files.append({"name": f"deep{tag}", "stmts": deep_stmts})
+        lib_stmts.append({"k": "import", "alias": alias, "file": 0})
+        lib_env = {f"{alias}.{k}": v for k, v in deep_env.items()}
     for j in range(rng.randrange(1, 4)):
         e = gen_expr(rng, rng.randrange(0, 3), lib_env)
+        if nested and j == 0 and e[0] != "bin" and py_denote(e, lib_env) == lib_env[f"{alias}.L0"]:
+            e = ["bin", "PLUS", e, ["dec", 7]]              # lib.L0 differs from deep.L0
         nm = f"L{j}"
         lib_stmts.append(_calc_const(rng, nm, e))
         lib_env[nm] = py_denote(e, lib_env)
+    if nested:                                              # the library uses alias.L0 (the deep one) first
+        e = ["bin", rng.choice(["PLUS", "TIMES", "MINUS"]), ["ref", f"{alias}.L0"], gen_expr(rng, 1, lib_env)]
+        lib_stmts.append(_calc_const(rng, "LN", e))
+        lib_env["LN"] = py_denote(e, lib_env)
+    if collide:                                             # the library declares AND uses names the main file reuses
+        for nm, v in (("CAP0", rng.randrange(41, 90)), ("LIMIT", rng.randrange(1, 4))):
+            lib_stmts.append(_calc_const(rng, nm, ["dec", v]))
+            lib_env[nm] = v
+        e = ["bin", "PLUS", ["bin", "TIMES", ["ref", "CAP0"], ["ref", "LIMIT"]], ["ref", "L0"]]
+        lib_stmts.append(_calc_const(rng, "LU", e))
+        lib_env["LU"] = py_denote(e, lib_env)
     if rng.random() < 0.5:
         lib_stmts.append({"k": "const", "name": "LS", "rhs": _str_rhs(rng, gen_safe_string(rng))})
-    alias = rng.choice(["lib", "base", "k_1"])
-    env: Dict[str, int] = {f"{alias}.{k}": v for k, v in lib_env.items()}
+    files.append({"name": f"lib{tag}", "stmts": lib_stmts})
+    lib_index = len(files) - 1
+    env: Dict[str, int] = {f"{alias}.{k}": v for k, v in lib_env.items() if "." not in k}
     other: Dict[str, str] = {}
-    if any(s["name"] == "LS" for s in lib_stmts):
+    if any(s["name"] == "LS" for s in lib_stmts if s["k"] == "const"):
         other[f"{alias}.LS"] = "str"
-    stmts: List[Dict[str, Any]] = [{"k": "import", "alias": alias, "file": 0}]
+    stmts: List[Dict[str, Any]] = [{"k": "import", "alias": alias, "file": lib_index}]
+    if collide:                                             # same names as the library's, other values
+        for j in range(rng.randrange(1, 3)):
+            nm = f"L{j}"
+            if f"{alias}.{nm}" not in env:
+                break
+            e = gen_expr(rng, rng.randrange(0, 3), env)
+            if py_denote(e, env) == env[f"{alias}.{nm}"]:
+                e = ["bin", "PLUS", e, ["dec", 11]]
+            stmts.append(_calc_const(rng, nm, e))
+            env[nm] = py_denote(e, env)
+    if collide or nested:                                   # ... and the main file USES the colliding spellings
+        e = ["bin", rng.choice(["PLUS", "MINUS", "TIMES"]), ["ref", "L0" if collide and "L0" in env else f"{alias}.L0"],
+             ["ref", f"{alias}.L0"]]
+        stmts.append(_calc_const(rng, "CU", e))
+        env["CU"] = py_denote(e, env)
     n = rng.randrange(4, 10)
     for j in range(n):
         r = rng.random()
@@ -396,7 +444,7 @@ def gen_main_program(rng: random.Random, idx: int, max_depth: int = 6) -> Dict[s
         k = rng.choice(small)
         fields.append({"name": "fl", "num": len(fields) + 1, "cap": {"ref": k}})
         total += env[k]
-    r = rng.random()
+    r = 0.0 if collide else rng.random()
     if r < 0.6:
         e = ["bin", "PLUS", ["dec", total], gen_expr(rng, 1, {k: v for k, v in env.items() if v >= 0})]
         if py_denote(e, env) < total:
@@ -412,7 +460,8 @@ def gen_main_program(rng: random.Random, idx: int, max_depth: int = 6) -> Dict[s
     stmts.append({"k": "const", "name": "ZZ_END", "rhs": {"k": "calc", "expr": ["dec", 0], "toks": [["int", "0"]],
                                                          "text": "0", "minimal": True}})
     stmts.append({"k": "message", "name": "M", "opt": opt, "fields": fields})
-    return {"stream": "main", "files": [{"name": f"lib{tag}", "stmts": lib_stmts}, {"name": f"main{tag}", "stmts": stmts}]}
+    files.append({"name": f"main{tag}", "stmts": stmts})
+    return {"stream": "main", "files": files}
 
 
 def _calc_const(rng: random.Random, nm: str, e) -> Dict[str, Any]:
